@@ -221,6 +221,11 @@ def shared_load_rules(rep, prop):
     if prop in ("C02", "C11", "C12") and "C07.1" not in done:
         from . import c07
         common.guarded(rep, "C07.1", c07.c07_1, rep, ix)
+    # which names are delivered by name instead of by value (and which parameters are withheld from the reported ones) is decided by the p-type
+    # predicate alone: a looser predicate turns ordinary variables and parameters of tdm programs into something else (shared with C15)
+    if prop in LOAD_SIDE and "C15.1" not in done:
+        from . import c15
+        common.guarded(rep, "C15.1", c15.c15_1, rep, ix, True)
 
 
 def run(rep, prop):
